@@ -111,8 +111,12 @@ func (vc *VC) execCall(fr *Frame, st *State, pc string, site ssa.Instruction, c 
 	var args []Term
 	if c.IsInvoke() {
 		recv := vc.value(fr, st, c.Value)
-		vc.oblige("nopanic.nil", "", pc, "(not (= "+recv.S+" 0))", site.Pos(), "method call on nil interface: "+c.Method.Name())
 		callee = vc.eng.resolveInvoke(c)
+		if callee != nil {
+			vc.oblige("nopanic.nil", "", pc, "(not (= "+recv.S+" 0))", site.Pos(), "method call on nil interface: "+c.Method.Name())
+		} else {
+			vc.eng.noteAssumption("interface values of external types (prometheus metrics, error, time) are non-nil where their methods are called")
+		}
 		args = append(args, recv)
 	} else {
 		callee = c.StaticCallee()
@@ -305,9 +309,11 @@ func (vc *VC) doAppend(fr *Frame, st *State, pc string, c *ssa.CallCommon) Term 
 	// the same facts through the named element accessor (robust triggers for contract quantifiers)
 	ef := vc.elemFn(vc.sortOf(sl.Elem()))
 	nm := vc.heapGet(st, key).S
+	nmA := vc.define("apna", arrS, sel(nm, "(sl.base "+res+")"))
+	oldA2 := vc.define("apoa", arrS, oldA)
 	vc.emit(fmt.Sprintf("(assert (forall ((k Int)) (! (=> (and (<= 0 k) (< k (sl.len %s))) (= (%s %s %s k) (%s %s %s k))) :pattern ((%s %s %s k)) :pattern ((%s %s %s k)))))",
-		sN, ef, nm, res, ef, mem.S, sN, ef, nm, res, ef, mem.S, sN))
-	vc.emit(fmt.Sprintf("(assert (=> (>= %s 1) (= (%s %s %s (sl.len %s)) %s)))", tl, ef, nm, res, sN, tat("0")))
+		sN, ef, nmA, res, ef, oldA2, sN, ef, nmA, res, ef, oldA2, sN))
+	vc.emit(fmt.Sprintf("(assert (=> (>= %s 1) (= (%s %s %s (sl.len %s)) %s)))", tl, ef, nmA, res, sN, tat("0")))
 	return Term{S: res, Sort: SSlice, T: c.Args[0].Type()}
 }
 
@@ -353,9 +359,6 @@ func (vc *VC) applyContract(fr *Frame, st *State, pc string, callee *ssa.Functio
 	short := shortFuncName(callee)
 	ord := fr.callOrd[short]
 	fr.callOrd[short] = ord + 1
-	for _, u := range spec.Uses {
-		vc.uses[u] = true
-	}
 	if spec.Trusted {
 		vc.trusted["assumed contract: "+callee.String()] = true
 	}
@@ -384,6 +387,7 @@ func (vc *VC) applyContract(fr *Frame, st *State, pc string, callee *ssa.Functio
 				cenv := vc.envAt(fr, st)
 				g := vc.evalBool(cenv, as.Cl.Expr)
 				vc.oblige("assert", fmt.Sprintf("%s#%d", short, ord), pc, g, site.Pos(), as.Cl.Src)
+				vc.assume(pc, g) // proved above, available below
 			}
 		}
 	}
@@ -514,8 +518,12 @@ func arrSortElem(s string) string {
 
 // modTargets evaluates the modifies clauses of spec in env (pre-state).
 func (vc *VC) modTargets(env *Env, spec *FuncSpec) []modTarget {
+	return vc.modTargetsOf(env, spec.Modifies)
+}
+
+func (vc *VC) modTargetsOf(env *Env, clauses []*Clause) []modTarget {
 	var out []modTarget
-	for _, cl := range spec.Modifies {
+	for _, cl := range clauses {
 		for _, part := range splitTop(cl.Src) {
 			if part == "" || part == "nothing" {
 				continue
@@ -533,9 +541,21 @@ func (vc *VC) modTargets(env *Env, spec *FuncSpec) []modTarget {
 func (vc *VC) evalModTarget(env *Env, e CExpr, src string) []modTarget {
 	switch t := e.(type) {
 	case CField:
-		// Type.field (whole key) or obj.field
+		// Type.field / pkg.Type.field (whole key) or obj.field
+		var tn types.Type
 		if id, ok := t.X.(CIdent); ok {
-			if tn := env.lookupType(id.Name); tn != nil {
+			if _, isVar := env.vars[id.Name]; !isVar {
+				tn = env.lookupType(id.Name)
+			}
+		} else if pf, ok := t.X.(CField); ok {
+			if pid, ok := pf.X.(CIdent); ok {
+				if _, isVar := env.vars[pid.Name]; !isVar && env.lookupPkg(pid.Name) != nil {
+					tn = env.lookupType(pid.Name + "." + pf.Name)
+				}
+			}
+		}
+		if tn != nil {
+			{
 				if stt, ok := tn.Underlying().(*types.Struct); ok {
 					for i := 0; i < stt.NumFields(); i++ {
 						if stt.Field(i).Name() == t.Name {
